@@ -18,6 +18,7 @@ from hypothesis import strategies as st
 
 from .. import configs, runcheck
 
+USES_KNOWN_CASES = True
 LEVEL = "fault_enumeration"
 RULE = (
     "Kill/resume histories of real runs: a generated configuration of either "
